@@ -138,6 +138,21 @@ var ops = []opGen{
 		// a path that was staged or committed before, is no longer staged and no longer on disk, comes back as a new file
 		return Step{Op: "write", Path: g.Pick(unstagedGone(g), "unstagedGone"), Data: g.contentFor()}
 	}},
+	{"dir-at-unstaged-file", func(g *G) bool { return len(unstagedGone(g)) > 0 }, func(g *G) Step {
+		// where a tracked FILE used to be (it was removed from the staging area and from disk) a DIRECTORY comes into
+		// being: histories in which one name is a file in one commit and a directory in another
+		p := g.Pick(unstagedGone(g), "unstagedGone")
+		for q := range g.E.Cur.IdxMap {
+			if strings.HasPrefix(p, q+"/") {
+				return Step{Op: "write", Path: g.NewPath(), Data: g.contentFor()} // an ancestor is staged as a file
+			}
+		}
+		return Step{Op: "write", Path: p + "/" + g.Component(), Data: g.contentFor()}
+	}},
+	{"file-at-unstaged-dir", func(g *G) bool { return len(unstagedGoneDirs(g)) > 0 }, func(g *G) Step {
+		// the reverse: a directory whose tracked files were all removed comes back as a regular file of the same name
+		return Step{Op: "write", Path: g.Pick(unstagedGoneDirs(g), "unstagedGoneDir"), Data: g.contentFor()}
+	}},
 	{"write-temp-sibling", hasTracked, func(g *G) Step {
 		// an UNTRACKED file whose name is what a tool would choose for a temporary or backup copy of a tracked file
 		// (a command that rewrites tracked files must not use, truncate or remove such a neighbour)
@@ -465,6 +480,38 @@ func unstagedGone(g *G) []string {
 			continue
 		}
 		xs = append(xs, p)
+	}
+	sort.Strings(xs)
+	return xs
+}
+
+// unstagedGoneDirs lists directories that held staged paths at some time, hold none now and do not exist on disk.
+func unstagedGoneDirs(g *G) []string {
+	set := map[string]bool{}
+	for p := range g.E.H.EverStaged {
+		for i := 0; i < len(p); i++ {
+			if p[i] == '/' {
+				set[p[:i]] = true
+			}
+		}
+	}
+	var xs []string
+	for d := range set {
+		if hasFile(g.E.Cur, d) || g.E.Cur.Work.Dirs[d] || underFile(g.E.Cur, d) {
+			continue
+		}
+		if _, staged := g.E.Cur.IdxMap[d]; staged {
+			continue
+		}
+		busy := false
+		for q := range g.E.Cur.IdxMap {
+			if strings.HasPrefix(q, d+"/") || strings.HasPrefix(d, q+"/") {
+				busy = true
+			}
+		}
+		if !busy {
+			xs = append(xs, d)
+		}
 	}
 	sort.Strings(xs)
 	return xs
